@@ -23,7 +23,7 @@ import collections
 from . import _deps  # noqa: F401
 from . import model as M
 from . import adapter as A
-from .core import Stats, Run, pmap_stats, seeded_order, jsonable
+from .core import Stats, Run, pmap_stats, seeded_order, jsonable, time_limit, OperationTimeout
 from .model import V, C, Add, Mul, Minus, Div, Pow, Neg, Recip, Cos, Sin, NPow, Root, Exp, Log
 from .deriv import f3_rule_disabled
 
@@ -33,6 +33,7 @@ from smoothmath import Partial, Derivative, Differential, LocatedDifferential, P
 
 x, y = V("x"), V("y")
 HOLE = ("var", "__S__")
+OP_TIME_LIMIT = 20          # seconds of wall clock for one explored operation (normal: well under a millisecond)
 
 SHARED = {
     "log": Log(x),
@@ -718,6 +719,7 @@ def _explore(spec: PoolSpec, state_cap, check_c10, st: Stats):
     frontier = collections.deque([(init, (), ginit)])
     states = 1
     transitions = 0
+    timeouts = 0
     dirty_transitions = 0
     depth_done = 0
     capped = False
@@ -737,15 +739,19 @@ def _explore(spec: PoolSpec, state_cap, check_c10, st: Stats):
             if G.slots:
                 G.restore(gsnap)
             try:
-                nxt = clone(pool)
-                dirty = is_dirty(nxt, spec, op)
-                sw = switched_path(nxt, op)
-                got = apply_op(nxt, op)
-                gnext = G.capture() if G.slots else gsnap
-                key_next = canon(nxt, spec, gnext)
-            except RecursionError:
-                msg = (f"after {show_op(spec, op)} the object graph of the pool is cyclic or unboundedly deep "
-                       "(an operation rewrote an existing expression in place)")
+                with time_limit(OP_TIME_LIMIT):
+                    nxt = clone(pool)
+                    dirty = is_dirty(nxt, spec, op)
+                    sw = switched_path(nxt, op)
+                    got = apply_op(nxt, op)
+                    gnext = G.capture() if G.slots else gsnap
+                    key_next = canon(nxt, spec, gnext)
+            except (RecursionError, OperationTimeout, MemoryError) as ex:
+                msg = (f"{show_op(spec, op)} did not complete ({type(ex).__name__}: {ex}): the object graph of the pool is "
+                       "cyclic, unboundedly deep or growing (an earlier operation rewrote an existing expression in place)")
+                timeouts += 1
+                if timeouts > 20:
+                    frontier.clear()
                 if len(v09) < 5:
                     v09.append((hist + (op,), msg))
                 if len(v10) < 5:
@@ -768,9 +774,14 @@ def _explore(spec: PoolSpec, state_cap, check_c10, st: Stats):
             states += 1
             if check_c10:
                 try:
-                    pr = c10_problems(nxt, spec, fresh_reprs, fresh_evals)
-                except RecursionError:
-                    pr = ["the object graph of the pool is cyclic or unboundedly deep (an existing expression was rewritten in place)"]
+                    with time_limit(OP_TIME_LIMIT):
+                        pr = c10_problems(nxt, spec, fresh_reprs, fresh_evals)
+                except (RecursionError, OperationTimeout, MemoryError) as ex:
+                    pr = [f"comparing the pooled objects with fresh twins did not complete ({type(ex).__name__}): the object graph "
+                          "is cyclic, unboundedly deep or growing (an existing expression was rewritten in place)"]
+                    timeouts += 1
+                    if timeouts > 20:
+                        frontier.clear()
                 if pr and len(v10) < 5:
                     v10.append((hist + (op,), pr[0]))
                 if G.slots:
@@ -865,6 +876,8 @@ def run_history(pid, tier, seed):
         return st
 
     st = pmap_stats(worker, specs, chunk=1, name=f"history_{pid}")
+    if pid == "C09":
+        st.merge(simplification_history_phase(tier, seed))
     run.absorb(st)
     c = st.c
     rule = ("pools = two expressions C1[S], C2[S] sharing the object S (S from a grammar of shapes incl. a "
@@ -902,6 +915,44 @@ def run_history(pid, tier, seed):
     ])
 
 
+def simplification_history_phase(tier, seed):
+    """Earlier simplifications as history: the object returned by a simplification is embedded in new expressions
+    (g*g, exp(g), g+y, y/g) and simplified again; the result must equal what a fresh structurally equal copy gives.
+    Exhaustive over the small enumerated terms with variables."""
+    from . import rewrite_mc as RW
+    terms = [t for t in M.terms_up_to(M.SIGMA_FULL, 3) + M.terms_up_to(M.SIGMA_RED, 4 if tier == "thorough" else 3)
+             if M.variables(t) and M.size(t) >= 2]
+    terms = seeded_order(terms, seed)
+
+    def worker(chunk):
+        st = Stats()
+        import logging
+        logging.disable(logging.WARNING)
+        for t in chunk:
+            try:
+                with time_limit(120):
+                    probs = RW.gen2_problems(t, False)
+            except OperationTimeout:
+                probs = [("timeout", "second-generation simplification did not finish", None)]
+            st.inc("transitions", 8)
+            st.inc("second_generation_checks")
+            st.inc("dirty_transitions", 4)
+            if probs:
+                def recheck(_t=t):
+                    return bool(RW.gen2_problems(_t, False))
+                with f3_rule_disabled():
+                    still = recheck()
+                if still:
+                    st.violation({"term": M.to_json(t), "show": M.show(t), "pool_name": "(simplification history)", "history": [],
+                                  "why": probs[0][1]})
+                else:
+                    st.known_hit("F3", f"{M.show(t)}: {probs[0][1][:160]}")
+        logging.disable(logging.NOTSET)
+        return st
+
+    return pmap_stats(worker, terms, chunk=300, name="history_gen2")
+
+
 def _f3_reachable(spec):
     for t in (spec.t1, spec.t2):
         for s in M.subterms(t):
@@ -921,6 +972,17 @@ def run_c10(tier, seed):
 def replay_case(pid, c):
     """Replays the recorded history on a fresh pool with plain calls (no explorer) and re-applies the oracle."""
     name = c["pool_name"]
+    if name == "(simplification history)":
+        from . import rewrite_mc as RW
+        t = M.from_json(c["term"])
+        probs = RW.gen2_problems(t, False)
+        print(f"replay {pid}: simplification history of {M.show(t)}")
+        if not probs:
+            print("replay: property holds on this case (no violation reproduced)")
+            return 0
+        print("  violation:", probs[0][1])
+        print(f"VIOLATION property={pid} replay={c.get('_path', '(given file)')}")
+        return 1
     spec = next((s for s in pool_specs(pid, c.get("tier", "quick")) if s.name == name), None)
     if spec is None:
         print("unknown pool", name)
